@@ -468,8 +468,8 @@ package varlink
 //@   role server
 //@   requires [nn] s != nil && !held[s] && dispatchersNonNil(s)
 //@   modifies s.protocol, s.address, s.listener, s.running, s.conncounter, held, closed, wgAdds, wgWaited, gDlOk, gSetDl, gAccErr, gAccTimeout, gRunSeen, gCntSeen, gCntDelta, gAccDelta, gAdds, gBound, gBindRun, gRemoved, gAct, gPidOk, gNfds, gNfdsOk, gNamesSet, gNames, gFd, gFdCalled, gFLErr
-//@   ghostset at defer(Listen$1)#1 : gBound = nil
-//@   ghostset at defer(Listen$1)#1 : gAccErr = nil
+//@   ghostset at entry : gBound = nil
+//@   ghostset at entry : gAccErr = nil
 //@   ghostset at load(listener)#1 : gBound = res0
 //@   ghostset at call(Accept)#1 : gAccErr = res1
 //@   ghostset at call(Accept)#1 : gAccDelta = gCntDelta[s]
@@ -494,8 +494,8 @@ package varlink
 //@   role server
 //@   requires [nn] s != nil && !held[s] && dispatchersNonNil(s)
 //@   modifies s.protocol, s.address, s.listener, s.running, s.conncounter, held, closed, wgAdds, wgWaited, gDlOk, gSetDl, gAccErr, gAccTimeout, gRunSeen, gCntSeen, gCntDelta, gAccDelta, gAdds, gBound
-//@   ghostset at defer(DoListen$1)#1 : gBound = nil
-//@   ghostset at defer(DoListen$1)#1 : gAccErr = nil
+//@   ghostset at entry : gBound = nil
+//@   ghostset at entry : gAccErr = nil
 //@   ghostset at load(listener)#1 : gBound = res0
 //@   ghostset at call(Accept)#1 : gAccErr = res1
 //@   ghostset at call(Accept)#1 : gAccDelta = gCntDelta[s]
